@@ -65,6 +65,7 @@ func vfGenCfg(t *rapid.T, p *vfProfile) vfCfg {
 	c.TickerSecs = int64(rapid.IntRange(1, 5).Draw(t, "ticker"))
 	c.SetBufSize = rapid.SampledFrom([]int{1, 2, 3, 8, 8, 64, 64}).Draw(t, "setBufSize")
 	c.BucketSecs = int64(rapid.SampledFrom([]int{1, 1, 5}).Draw(t, "bucket"))
+	c.ConflictHash = rapid.IntRange(0, 2).Draw(t, "conflicthash") == 0
 	return c
 }
 
